@@ -504,7 +504,7 @@ static std::vector<Scenario> scenariosC15(bool thorough, const vp::Args& A) {
 static std::vector<Scenario> scenariosC04(bool thorough, const vp::Args& A) {
   std::vector<Scenario> v;
   for (int enh = 0; enh < 2; enh++) {
-    for (int shape = 0; shape < 10; shape++) {
+    for (int shape = 0; shape < 12; shape++) {
       if (!thorough && (shape == 6 || shape == 7)) continue;
       for (int retr = 0; retr < 2; retr++) {
 #ifndef BUSMC_WITH_POLL
@@ -537,10 +537,20 @@ static std::vector<Scenario> scenariosC04(bool thorough, const vp::Args& A) {
           // the real PollRequest of bushandler.cpp on a two-part chained message (both parts go to 08 and get the same answer)
           case 8: add(Bytes{0x31, 0x08, 0xb5, 0x09, 0x03, 0x0d, 0x01, 0x00}, Bytes{0x02, 0x11, 0x22}, 2, 0, false, 0); break;
           case 9: add(Bytes{0x31, 0x08, 0xb5, 0x09, 0x03, 0x0d, 0x01, 0x00}, Bytes{0x02, 0x11, 0x22}, 2, 0, true, 0); add(m2, Bytes{}, 1, 0, false, 0); break;
+          // the real ScanRequest of bushandler.cpp: identification query to the slaves 08 and 15, one after the other (restart)
+          case 10: case 11: {
+            Bytes ident = ref::unhex("0ab5454255303103040506");
+            add(Bytes{0x31, 0x08, 0x07, 0x04, 0x00}, ident, 3, 0, shape == 11, 0);
+            Bytes second = {0x31, 0x15, 0x07, 0x04, 0x00};
+            s.reqs.back().extraResponders.push_back(std::make_pair((uint8_t)0x15, responder(second, ident, 0)));
+            if (shape == 11) add(m1, Bytes{0x01, 0x5a}, 0, 0, false, 0);
+            break;
+          }
         }
         s.k = 2;
         if (thorough && shape <= 3) s.k = 3;
         if (!thorough && s.r >= 2) s.k = 1;
+        if (!thorough && shape == 11) s.k = 1;
         s.c = 0;
         s.slices = (s.k + s.r >= 3) ? 16 : 4;
         if (s.k + s.r >= 4) s.slices = 64;
